@@ -6,13 +6,14 @@ cd "$(dirname "$0")/.."
 TIER="${1:-quick}"
 fail=0
 for d in seeded/C*-w*-m*; do
+  if [ "$(jq -r '.no_longer_breaks_property // false' "$d/meta.json")" = "true" ]; then echo "n/a      $d (does not break the property on HEAD any more: see its meta.json)"; continue; fi
   ids=$(jq -r '.checks_run[0]' "$d/meta.json" | awk '{print $3}')
   out=$(tools/try_seeded.sh "$d/patch.diff" "$ids" "$TIER" 2>&1); rc=$?
-  if [ $rc -eq 1 ]; then echo "caught   $d ($ids)"; else echo "MISSED   $d ($ids) rc=$rc"; fail=1; fi
+  if [ $rc -eq 1 ]; then echo "caught   $d ($ids)"; elif [ $rc -eq 3 ]; then echo "n/a      $d (no longer applies: a later repair rewrote the lines it changes)"; else echo "MISSED   $d ($ids) rc=$rc"; fail=1; fi
 done
 for d in seeded/refactorings/*; do
   ids=$(jq -r '.checks_run[0]' "$d/meta.json" | awk '{print $3}')
   out=$(tools/try_seeded.sh "$d/patch.diff" "$ids" "$TIER" 2>&1); rc=$?
-  if [ $rc -eq 0 ]; then echo "quiet    $d ($ids)"; else echo "ALARM    $d ($ids) rc=$rc"; echo "$out" | grep -E "^violation|TROUBLE" | head -3; fail=1; fi
+  if [ $rc -eq 0 ]; then echo "quiet    $d ($ids)"; elif [ $rc -eq 3 ]; then echo "n/a      $d (no longer applies: a later repair rewrote the lines it changes)"; else echo "ALARM    $d ($ids) rc=$rc"; echo "$out" | grep -E "^violation|TROUBLE" | head -3; fail=1; fi
 done
 exit $fail
